@@ -412,7 +412,19 @@ class Interp:
                 return False
             if sym in ("/", "%") and v == 0:
                 return False
-            em.code("%s[%s] %s= %s" % (an, idx(i), sym, elit(a.t, v)))
+            rhs = elit(a.t, v)
+            b = self.vars.get(op.get("b")) if op.get("b") else None
+            if a.t == "li" and op.get("rhs") == "sum":
+                # the right-hand side is itself an expression that needs temporaries
+                rhs = "(%s + gsrc.len())" % elit("li", v - 2)
+            elif a.t == "li" and op.get("rhs") == "idx" and b is not None and b.t == "li" and b.data and op.get("b") in self.plain and sym in ("+", "-", "*"):
+                j = op.get("j", 0) % len(b.data)
+                jv = "jv%d" % self.n
+                self.n += 1
+                em.code("%s = %d" % (jv, j))
+                rhs = "%s[%s]" % (op["b"], jv)
+                v = b.data[j]
+            em.code("%s[%s] %s= %s" % (an, idx(i), sym, rhs))
             if i < 0 or i >= n:
                 raise Stop("index op-assignment %d out of range (len %d)" % (i, n))
             x = a.data[i]
@@ -826,6 +838,14 @@ def gen_op(rng, it):
                 op["sym"] = rng.choice(["+", "+", "-", "*", "/", "%"]) if o.t in ("li", "lg") else "+"
                 if op["sym"] in ("/", "%") and op["v"] == 0:
                     op["v"] = 3
+                if o.t == "li":
+                    op["rhs"] = rng.weighted([("lit", 3), ("sum", 2), ("idx", 2)])
+                    cands = [x for x in lists if it.vars[x].t == "li"]
+                    if cands:
+                        op["b"] = rng.choice(cands)
+                        op["j"] = rng.below(8)
+                    if op["rhs"] == "sum" and op["sym"] in ("/", "%") and op["v"] == 0:
+                        op["v"] = 3
             if kind == "push_fn" and n == 0:
                 op["op"] = "push"
         if kind == "chain2":
